@@ -16,8 +16,13 @@ def c_unescape(lit):
     return out
 
 
+def _c(comment):
+    """source text quoted inside a Coq comment must not open or close one (nor start a string)"""
+    return comment.replace('(*', '( *').replace('*)', '* )').replace('"', "'")
+
+
 def natlist(name, xs, comment):
-    return 'Definition %s : list nat := [%s].   (* %s *)' % (name, '; '.join(str(x) for x in xs), comment)
+    return 'Definition %s : list nat := [%s].   (* %s *)' % (name, '; '.join(str(x) for x in xs), _c(comment))
 
 
 def generate(repo, emit, src, func_body):
@@ -34,7 +39,7 @@ def generate(repo, emit, src, func_body):
         emit('print_int_convs', natlist('print_int_convs', c_unescape(r['int_convs']), 'source: "%s" -> format_to(.., c_int(a))' % r['int_convs']))
         emit('print_float_convs', natlist('print_float_convs', c_unescape(r['float_convs']), 'source: "%s" -> format_to(.., c_float(a))' % r['float_convs']))
         emit('print_dispatch_nul_hits', 'Definition print_dispatch_nul_hits : bool := %s.   (* %s *)' % (
-            ('true', 'source: if (strchr(set, *fmt)) arms - the NUL is a hit') if r['nul_hits'] else ('false', 'source: switch (*fmt) - the NUL goes to default')))
+            ('true', 'source: arms tested with strchr(set, c) - the NUL is a hit') if r['nul_hits'] else ('false', 'source: switch on the conversion character - the NUL goes to default')))
         emit('print_shape_ok', 'Definition print_shape_ok : bool := true.   (* the whole body of print_to_with is a sequence of accepted statement forms: %s *)'
              % ' '.join(r['forms']))
         emit('print_pct_skip', 'Definition print_pct_skip : nat := %d.   (* source: fmt += %d after "%%%%" *)' % (r['pct_skip'], r['pct_skip']))
